@@ -2,3 +2,9 @@ import XProofs.Properties.C06
 #print axioms Properties.C06.C06_eq_iff_same_path
 #print axioms Properties.C06.C06_expr_eq_iff
 #print axioms Properties.C06.C06_hash_of_eq
+#print axioms Properties.C06.C06_key_print_injective
+#print axioms Properties.C06.C06_path_print_injective
+#print axioms Properties.C06.C06_extends_parse_paths
+#print axioms Properties.C06.C06_eq_iff_same_path_from_extension
+#print axioms Properties.C06.C06_key_text_injective
+#print axioms Properties.C06.C06_path_text_injective
